@@ -424,6 +424,12 @@ func (fr *frame) execUnOp(x *ssa.UnOp, st *State, reach string) {
 	v := fr.valOf(x.X)
 	switch x.Op {
 	case token.MUL: // load
+		if g, isG := x.X.(*ssa.Global); isG && !fr.pure && !(fr.fn.Synthetic != "" && fr.fn.Name() == "init") {
+			if elems, ok := u.eng.constTable(g); ok {
+				fr.vals[x] = fr.loadConstTable(g, elems, st)
+				return
+			}
+		}
 		fr.nilCheck(x.X, v, reach, x.Pos())
 		lv := fr.ptrLV(v, x.X.Type())
 		if lv.kind == lvPure && len(lv.path) == 0 && lv.pval != nil && *lv.pval != nil {
@@ -1021,7 +1027,15 @@ func (fr *frame) loopInvariants(li *loopInfo) []*Clause {
 		if fr.contract == nil {
 			return nil
 		}
+		lm := fr.loopMap()
 		for _, c := range fr.contract.Loops {
+			if lm != nil {
+				// the function's loops were re-arranged: the invariant follows the loop it was written for
+				if to, ok := lm[c.Loop]; ok && to == li.ordinal {
+					res = append(res, c)
+				}
+				continue
+			}
 			if c.Loop == li.ordinal {
 				res = append(res, c)
 			}
@@ -1068,6 +1082,10 @@ func (fr *frame) loopInvariants(li *loopInfo) []*Clause {
 // loopGone: the loop an invariant of this frame's contract was written for is no longer in the function's body -
 // there are fewer loops than its ordinal, or the loop of that ordinal has none of the variables the invariant names.
 func (fr *frame) loopGone(c *Clause) bool {
+	if lm := fr.loopMap(); lm != nil {
+		_, ok := lm[c.Loop]
+		return !ok
+	}
 	var li *loopInfo
 	for _, l := range fr.loops {
 		if l.ordinal == c.Loop {
@@ -1230,6 +1248,13 @@ func (fr *frame) enterLoop(li *loopInfo, st *State, reach string) *State {
 		return &Val{t: term}
 	}
 	invs := fr.loopInvariants(li)
+	if u.eng.loopsNew(fr.fn) && fr.rangesOverTable(li) {
+		// a loop over a table of fixed size (an array, a slice literal, a package-level table) that was not there when the
+		// proofs were made: the signature of a table-driven rewrite. Proving through it would take unrolling, which the
+		// engine does not do, and the ordinals of the function's other loops have moved: what fails to be proved from
+		// here on is undecided (the unit says so), not violated - unless an invariant by construction covers the loop
+		fr.pendingNewLoop = true
+	}
 	// 1. invariants on entry
 	for _, c := range invs {
 		args, ok := fr.loopEnv(li, c, entryVal, st)
@@ -1323,8 +1348,19 @@ func (fr *frame) enterLoop(li *loopInfo, st *State, reach string) *State {
 		u.assume(reach, fr.evalSpec(c, args, ns, nil))
 	}
 	// 4. invariants that hold by the shape of the loop
+	before := u.abstracted["auto-invariant:search-loop"]
 	fr.autoCounting(li, entryVal, ns, reach)
 	fr.autoSearched(li, ri, ns, reach)
+	if fr.pendingNewLoop {
+		fr.pendingNewLoop = false
+		mods, _ := fr.modifiedIn(li)
+		if u.abstracted["auto-invariant:search-loop"] == before || len(mods) > 0 || len(invs) > 0 {
+			if u.newLoopAt == 0 {
+				u.newLoopAt = len(u.cmds) + 1
+			}
+			u.newLoops = append(u.newLoops, fmt.Sprintf("%s: loop %d of %s has no invariant (the function has more loops than on the recorded tree)", funcName(u.fn), li.ordinal, funcName(fr.fn)))
+		}
+	}
 	if ri != nil && riLen != "" {
 		ev := entryVal(ri)
 		u.oblige(fr.obName("inv-init", fmt.Sprintf("loop%d.rangeindex", li.ordinal)), "inv-init", nil, reach,
@@ -1332,6 +1368,52 @@ func (fr *frame) enterLoop(li *loopInfo, st *State, reach string) *State {
 		u.assume(reach, fmt.Sprintf("(and (<= (- 1) %s) (< %s %s))", fr.vals[ri].t, fr.vals[ri].t, riLen))
 	}
 	return ns
+}
+
+// rangesOverTable: the loop is a range loop over something whose length is fixed in the source: an array, a slice
+// literal written in the function, or a package-level variable initialised with a slice literal.
+func (fr *frame) rangesOverTable(li *loopInfo) bool {
+	for _, in := range li.header.Instrs {
+		bo, ok := in.(*ssa.BinOp)
+		if !ok || bo.Op != token.LSS {
+			continue
+		}
+		switch y := bo.Y.(type) {
+		case *ssa.Const:
+			return true // range over an array
+		case *ssa.Call:
+			b, isB := y.Call.Value.(*ssa.Builtin)
+			if !isB || b.Name() != "len" || len(y.Call.Args) != 1 {
+				return false
+			}
+			switch x := y.Call.Args[0].(type) {
+			case *ssa.Slice:
+				_, lit := x.X.(*ssa.Alloc)
+				return lit
+			case *ssa.UnOp:
+				g, isG := x.X.(*ssa.Global)
+				if x.Op != token.MUL || !isG || g.Pkg == nil {
+					return false
+				}
+				init := g.Pkg.Func("init")
+				if init == nil || fr.u.eng.assignedOutsideInit(g) != "" {
+					return false
+				}
+				for _, blk := range init.Blocks {
+					for _, ii := range blk.Instrs {
+						if s, isS := ii.(*ssa.Store); isS && s.Addr == ssa.Value(g) {
+							if sl, isSl := s.Val.(*ssa.Slice); isSl {
+								if _, lit := sl.X.(*ssa.Alloc); lit {
+									return true
+								}
+							}
+						}
+					}
+				}
+			}
+		}
+	}
+	return false
 }
 
 func (fr *frame) loopBack(li *loopInfo, from *ssa.BasicBlock, st *State) {
